@@ -5,7 +5,7 @@ from .. import stl_specs as SP
 
 CFG = stl.Config(prop='C05', ns='bit', table=SP.BIT, widths={'quick': [64], 'thorough': [64, 32, 16]},
                  startup='stl.startup', seq_n=3, seq_pairs_quick=40, quick_n2={'n': 4},
-                 sweep_max=16, sweep_max_quadratic=12, sweep_extra=64)
+                 sweep_max=16, sweep_max_quadratic=12, sweep_extra=64, rerun_n=3)
 
 
 def run(ctx):
